@@ -111,6 +111,33 @@ pub proof fn lemma_rt_up(t: Type, n: int)
     requires rt_ok(t, n),
     ensures rt_up(t, n),
 { assert forall|m: int| m >= n implies #[trigger] rt_ok(t, m) by { lemma_rt_ok_mono(t, n, m); } }
+// constructor lemmas for rt_up (broadcast: they fire on the constructed value)
+pub broadcast proof fn lemma_rt_up_user(var: Ref, vars: Vec<Type>, span: Span, n: int)
+    requires var < n, forall|i: int| 0 <= i < vars@.len() ==> rt_up(#[trigger] vars@[i], n),
+    ensures #[trigger] rt_up(Type::UserType(var, vars, span), n),
+{ assert forall|m: int| m >= n implies #[trigger] rt_ok(Type::UserType(var, vars, span), m) by {
+    assert forall|i: int| 0 <= i < vars.len() implies rt_ok(#[trigger] vars[i], m) by { assert(rt_up(vars@[i], n)); } } }
+pub broadcast proof fn lemma_rt_up_leaf(t: Type, n: int)
+    requires t is Implied || t is Generic || (t is Resolved && (t->Resolved_0 is Void || t->Resolved_0 is Nil || t->Resolved_0 is Unknown || t->Resolved_0 is Int
+        || t->Resolved_0 is Float || t->Resolved_0 is Bool || t->Resolved_0 is String)),
+    ensures #[trigger] rt_up(t, n),
+{ assert forall|m: int| m >= n implies #[trigger] rt_ok(t, m) by {} }
+pub broadcast proof fn lemma_rt_up_tuple(fields: Vec<Type>, span: Span, n: int)
+    requires forall|i: int| 0 <= i < fields@.len() ==> rt_up(#[trigger] fields@[i], n),
+    ensures #[trigger] rt_up(Type::Tuple(fields, span), n),
+{ assert forall|m: int| m >= n implies #[trigger] rt_ok(Type::Tuple(fields, span), m) by {
+    assert forall|i: int| 0 <= i < fields.len() implies rt_ok(#[trigger] fields[i], m) by { assert(rt_up(fields@[i], n)); } } }
+pub broadcast proof fn lemma_rt_up_list(kind: Box<Type>, span: Span, n: int)
+    requires rt_up(*kind, n),
+    ensures #[trigger] rt_up(Type::List(kind, span), n),
+{ assert forall|m: int| m >= n implies #[trigger] rt_ok(Type::List(kind, span), m) by { assert(rt_ok(*kind, m)); } }
+pub broadcast proof fn lemma_rt_up_fn(constraints: BTreeMap<String, Vec<TypeConstraint>>, params: Vec<Type>, ret: Box<Type>, is_pure: bool, span: Span, n: int)
+    requires forall|i: int| 0 <= i < params@.len() ==> rt_up(#[trigger] params@[i], n), rt_up(*ret, n),
+    ensures #[trigger] rt_up(Type::Fn { constraints, params, ret, is_pure, span }, n),
+{ assert forall|m: int| m >= n implies #[trigger] rt_ok(Type::Fn { constraints, params, ret, is_pure, span }, m) by {
+    assert forall|i: int| 0 <= i < params.len() implies rt_ok(#[trigger] params[i], m) by { assert(rt_up(params@[i], n)); }
+    assert(rt_ok(*ret, m)); } }
+pub broadcast group group_rt_up { lemma_rt_up_user, lemma_rt_up_leaf, lemma_rt_up_tuple, lemma_rt_up_list, lemma_rt_up_fn }
 /// every variable id mentioned anywhere in a resolved tree is below n (i.e. an index of the
 /// variable table) - the phase contract between the resolver and the type checker
 pub open spec fn e_below(e: Expression, n: int) -> bool decreases e {
